@@ -1,10 +1,10 @@
 SPECIFICATION Spec
 INVARIANT ComputeSucceeds
 INVARIANT WellFormed
+INVARIANT CDGNodes
 INVARIANT CDGSound
 INVARIANT CDGPairsComplete
-INVARIANT CDGLabelsComplete
-INVARIANT CDGNodes
 INVARIANT RootQuery
 INVARIANT DepsQuery
 INVARIANT RootOrBranch
+INVARIANT CDGLabelsComplete
